@@ -192,7 +192,7 @@ def record(app, env, head):
     events, problems = [], []
 
     def start_response(status, headers, exc_info=None):
-        so = isinstance(status, str) and re.match(r'^\d{3} [^\x00-\x1f\x7f]+$', status) is not None
+        so = isinstance(status, str) and re.fullmatch(r'\d{3} [^\x00-\x1f\x7f]+', status) is not None
         try:
             if so:
                 status.encode('latin-1')          # PEP 3333: native strings whose characters are all bytes
